@@ -43,6 +43,8 @@ REGISTRY = {
     'disp': {
         'clear': [dict(kind='harness', name='disp_clear')],
     },
+    # pseudo-unit: subsume actions in rule heads (bridge RuleBuilder::subsume; no verifier reaches it), C13 thorough tier only (F5)
+    'subsumehead': {'*': [dict(kind='egg', file='replays/findings/f5_subsume_new_row_in_same_head.egg')]},
     # pseudo-unit: the Rust API write path (EGraph::update -> bridge flush_updates), C05 thorough tier only (F4)
     'apiupdate': {'*': [dict(kind='harness', name='update_nomerge')]},
     'driver': {'flush_updates_inner': [dict(kind='harness', name='update_nomerge')], '*': [dict(kind='egg', file='replays/driver/nomerge_conflict_by_union.egg'), dict(kind='egg', file='replays/driver/panic_during_rebuild_fixpoint.egg'), dict(kind='egg', file='replays/driver/panic_before_rebuild.egg'), dict(kind='egg', file='replays/semi/seminaive.egg'),
